@@ -17,7 +17,7 @@ RULE = ("(a) breadth-first search over histories of enter / leave / leave-by-exc
         "after every event and breaching builds must raise exactly when the model says the mode is on; (b) one "
         "restricted aspect violated at a time (non-conforming name for each of the 21 object kinds, set identifier, "
         "header id, validated IDENT attributes; signed-integer channel; channel in 0 / 2 frames; non-uniform index; "
-        "non-standard unit on a channel / on an attribute, index type, equipment type and location) x {inside, nested "
+        "non-standard unit on a channel / on an attribute, index type, equipment type and location; eleven shapes of a bad identifier such as a trailing line feed) x {inside, inside after the same inputs were used outside in the same process, nested "
         "inside, outside, after leaving by exception, object created outside and value assigned inside, object created "
         "inside and value assigned after leaving}: inside every breach must raise and the conforming file must "
         "satisfy all restrictions at once (checked on the decoded file, incl. sequential file-set numbers); outside "
